@@ -1,11 +1,124 @@
-(* C13 — EDF, FIFO and LSF honour their priority order.  Only statements; proofs are in Proofs/GreedyP*.v *)
+(* C13 — EDF, FIFO and LSF honour their priority order (no priority inversion).
+   Only statements; proofs are in Proofs/GreedyP*.v.  L is any worker ledger satisfying `ledger_laws`
+   (placing only consumes, fitting is antitone in consumption); `SL` (Model/Greedy.v) is one. *)
 From Coq Require Import ZArith Bool List Sorting.Sorted Permutation.
 Import ListNotations.
-From Verif Require Import Model.Val Gen.Src_Greedy Model.Greedy Proofs.GreedyP.
+From Verif Require Import Model.Val Gen.Src_Greedy Model.Greedy Proofs.GreedyP Proofs.GreedyP2 Proofs.GreedyP3.
 Open Scope Z_scope.
 
-(* the translated sort keys are the documented priorities *)
+(* the sort keys translated from the source are the documented priorities: earliest deadline (then graph
+   name), earliest release, least slack = deadline - now - remaining *)
 Theorem C13_keys : forall now t,
   p_key edf now t = doc_edf_key now t /\ p_key fifo now t = doc_fifo_key now t /\ p_key lsf now t = doc_lsf_key now t.
 Proof. intros; repeat split. Qed.
 Print Assumptions C13_keys.
+Theorem C13_key_order : forall a b c d,
+  lex_leb [a] [b] = (a <=? b) /\ lex_leb [a; c] [b; d] = ((a <? b) || ((a =? b) && (c <=? d))).
+Proof. intros. split; [apply lex_leb_single|apply lex_leb_pair]. Qed.
+Print Assumptions C13_key_order.
+
+(* sorted(tasks, key=...) : a permutation of the offered tasks, in key order, ties in input order *)
+Theorem C13_order : forall L P now (offered : list (task L)),
+  Permutation offered (ordered L P now offered) /\
+  StronglySorted (prio_le L P now) (ordered L P now offered) /\
+  forall k, filter (fun t => list_eqb (p_key P now (t_attrs t)) k) (ordered L P now offered) =
+            filter (fun t => list_eqb (p_key P now (t_attrs t)) k) offered.
+Proof.
+  intros. split; [apply sort_by_perm|]. split; [apply (sort_by_sorted (fun t : task L => p_key P now (t_attrs t)))|].
+  intros k. apply (sort_by_stable_key (fun t : task L => p_key P now (t_attrs t))).
+Qed.
+Print Assumptions C13_order.
+
+(* The property, for every policy P of this family and every lawful ledger: if the i-th task x of the
+   order is reported unplaced, then in the virtual cluster V produced by exactly the decisions for the
+   i tasks before it -- each of priority higher than or equal to x's -- no strategy of x fits any worker
+   of any pool; every task decided after x has priority lower than or equal to x's; and x still fits
+   nowhere in the final virtual cluster cf (V <= cf: placements only consume). *)
+Theorem C13_unplaced_unfit : forall L wle wok sok, ledger_laws L wle wok sok ->
+  forall P e pre now (c : cluster L) offered ds cf i x,
+  cok L wok c -> tasks_ok L sok offered ->
+  schedule_full L P e pre now c offered = Ok (ds, cf) ->
+  nth_error (ordered L P now offered) i = Some x ->
+  nth_error ds i = Some (DUnplaced (t_id x)) ->
+  exists V,
+    run L P e now (virtual L P pre c) (firstn i (ordered L P now offered)) = Ok (firstn i ds, V) /\
+    (forall s p w, In s (t_strats x) -> In p V -> In w (snd p) -> can L w s = false) /\
+    cle L wle V cf /\
+    (forall s p w, In s (t_strats x) -> In p cf -> In w (snd p) -> can L w s = false) /\
+    Forall (fun y => prio_le L P now y x) (firstn i (ordered L P now offered)) /\
+    Forall (fun y => prio_le L P now x y) (skipn (S i) (ordered L P now offered)).
+Proof. intros L wle wok sok LL. exact (c13_laws L wle wok sok LL). Qed.
+Print Assumptions C13_unplaced_unfit.
+
+(* the three policies, priorities spelled with the documented keys *)
+Theorem C13_edf : forall L wle wok sok, ledger_laws L wle wok sok ->
+  forall e pre now (c : cluster L) offered ds cf i x,
+  cok L wok c -> tasks_ok L sok offered ->
+  schedule_full L edf e pre now c offered = Ok (ds, cf) ->
+  nth_error (ordered L edf now offered) i = Some x -> nth_error ds i = Some (DUnplaced (t_id x)) ->
+  exists V,
+    run L edf e now (virtual L edf pre c) (firstn i (ordered L edf now offered)) = Ok (firstn i ds, V) /\
+    (forall s p w, In s (t_strats x) -> In p V -> In w (snd p) -> can L w s = false) /\
+    cle L wle V cf /\
+    (forall s p w, In s (t_strats x) -> In p cf -> In w (snd p) -> can L w s = false) /\
+    Forall (fun y => lex_leb [ta_deadline (t_attrs y); ta_task_graph (t_attrs y)]
+                             [ta_deadline (t_attrs x); ta_task_graph (t_attrs x)] = true) (firstn i (ordered L edf now offered)) /\
+    Forall (fun y => lex_leb [ta_deadline (t_attrs x); ta_task_graph (t_attrs x)]
+                             [ta_deadline (t_attrs y); ta_task_graph (t_attrs y)] = true) (skipn (S i) (ordered L edf now offered)).
+Proof. intros L wle wok sok LL. exact (c13_laws L wle wok sok LL edf). Qed.
+Print Assumptions C13_edf.
+Theorem C13_fifo : forall L wle wok sok, ledger_laws L wle wok sok ->
+  forall e pre now (c : cluster L) offered ds cf i x,
+  cok L wok c -> tasks_ok L sok offered ->
+  schedule_full L fifo e pre now c offered = Ok (ds, cf) ->
+  nth_error (ordered L fifo now offered) i = Some x -> nth_error ds i = Some (DUnplaced (t_id x)) ->
+  exists V,
+    run L fifo e now (virtual L fifo pre c) (firstn i (ordered L fifo now offered)) = Ok (firstn i ds, V) /\
+    (forall s p w, In s (t_strats x) -> In p V -> In w (snd p) -> can L w s = false) /\
+    cle L wle V cf /\
+    (forall s p w, In s (t_strats x) -> In p cf -> In w (snd p) -> can L w s = false) /\
+    Forall (fun y => lex_leb [ta_release_time (t_attrs y)] [ta_release_time (t_attrs x)] = true) (firstn i (ordered L fifo now offered)) /\
+    Forall (fun y => lex_leb [ta_release_time (t_attrs x)] [ta_release_time (t_attrs y)] = true) (skipn (S i) (ordered L fifo now offered)).
+Proof. intros L wle wok sok LL. exact (c13_laws L wle wok sok LL fifo). Qed.
+Print Assumptions C13_fifo.
+Theorem C13_lsf : forall L wle wok sok, ledger_laws L wle wok sok ->
+  forall e pre now (c : cluster L) offered ds cf i x,
+  cok L wok c -> tasks_ok L sok offered ->
+  schedule_full L lsf e pre now c offered = Ok (ds, cf) ->
+  nth_error (ordered L lsf now offered) i = Some x -> nth_error ds i = Some (DUnplaced (t_id x)) ->
+  exists V,
+    run L lsf e now (virtual L lsf pre c) (firstn i (ordered L lsf now offered)) = Ok (firstn i ds, V) /\
+    (forall s p w, In s (t_strats x) -> In p V -> In w (snd p) -> can L w s = false) /\
+    cle L wle V cf /\
+    (forall s p w, In s (t_strats x) -> In p cf -> In w (snd p) -> can L w s = false) /\
+    Forall (fun y => lex_leb [ta_deadline (t_attrs y) - now - ta_remaining_time (t_attrs y)]
+                             [ta_deadline (t_attrs x) - now - ta_remaining_time (t_attrs x)] = true) (firstn i (ordered L lsf now offered)) /\
+    Forall (fun y => lex_leb [ta_deadline (t_attrs x) - now - ta_remaining_time (t_attrs x)]
+                             [ta_deadline (t_attrs y) - now - ta_remaining_time (t_attrs y)] = true) (skipn (S i) (ordered L lsf now offered)).
+Proof. intros L wle wok sok LL. exact (c13_laws L wle wok sok LL lsf). Qed.
+Print Assumptions C13_lsf.
+
+(* "only if" is tight: a task that is not cancelled and has a strategy fitting some pool of V is placed *)
+Theorem C13_fits_placed : forall L P e now ts (c : cluster L) ds cf i x V,
+  run L P e now c ts = Ok (ds, cf) -> nth_error ts i = Some x ->
+  run L P e now c (firstn i ts) = Ok (firstn i ds, V) -> admission L P e now x = Ok false -> task_fits L V x = true ->
+  exists pid k, nth_error ds i = Some (DPlace (t_id x) pid k now).
+Proof. exact run_fit_placed. Qed.
+Print Assumptions C13_fits_placed.
+
+(* the laws are satisfiable: the simple ledger (named integer resources, `any` requests) is an instance,
+   and there availability is conserved exactly by a placement *)
+Theorem C13_simple_ledger : ledger_laws SL s_wle s_wok s_sok /\
+  forall w t s, s_wok w -> s_sok s -> s_can w s = true ->
+    forall n, avail_of (s_wplace w t s) n = avail_of w n - demand (ss_req s) n.
+Proof. split; [exact SL_laws|exact s_wplace_conserve]. Qed.
+Print Assumptions C13_simple_ledger.
+
+(* a closed witness with a tie: deadlines A=10 < B=12 = C=12 (C before B in the input, so before B in the
+   order), two CPUs; A and C take one CPU each, B (2 CPUs) is unplaced: the placed tasks have priority higher
+   than or equal to B's *)
+Theorem C13_example :
+  s_cok ex_cluster /\ s_tasks_ok ex_tasks /\
+  schedule SL edf false false 0 ex_cluster ex_tasks = Ok [DPlace 0 0 0%nat 0; DPlace 2 0 0%nat 0; DUnplaced 1].
+Proof. split; [apply ex_hyps|]. split; [apply ex_hyps|exact ex_edf_run]. Qed.
+Print Assumptions C13_example.
